@@ -22,10 +22,15 @@
   * `Task` registers a caller-supplied Job number as it is (also 1, whose result `handle` then drops:
     `low_numbers_ignored`); "never 0 or 1" is proved for the numbers `newJobID` hands out
     (`jobid_fresh`). The harness never supplies a number below 2.
+  * (extension) the sub-steps of the locked regions as seen by lock-free readers are now modelled and
+    proved: section "Sub-steps" at the end of this file (model XMT/JobSub.lean, invariant
+    XMT/JobSubInv*.lean). `count` is now covered: `count_is_table_size`, `sub_count_is_table_size`.
   * `resync_only_for_pending` is definitional on purpose: it pins the gate to `hasJob` alone; the tie is
     the differential op `resync`.
 -/
 import XMT.JobInv
+import XMT.JobSubGood
+import XMT.JobCount
 namespace XMT.Props.C14
 open XMT XMT.Job
 
@@ -383,6 +388,328 @@ theorem stale_result_after_id_reuse :
     let s := runF [.task 7 [] false, .cancel 0, .task 7 [] false, .result 7 false 0] {} [0, 0, 1, 1, 2, 2, 3, 3, 3, 3, 3, 3, 3]
     (s.jobs 0).status = stCanceled ∧ (s.loc 2).out = .job 1 ∧ (s.jobs 1).result = some 0 ∧
     (s.jobs 1).status = stCompleted := by decide
+
+
+/-! ## Sub-steps of the locked regions as seen by lock-free readers (model XMT/JobSub.lean)
+
+`Job.Cancel`'s locked region is five single writes (`jobs[ID] = nil`, `delete`, `Status = Canceled`,
+`close(done)`, `done = nil`), `Session.frag`'s two; `Wait`, `IsDone`, `IsError` and the reads of
+`Status` / `Result` / `Error` that follow them are threads whose every single read can fall between
+any two of those writes (and between the unlocked stores of `handle`). `prog : List KindS` is ANY
+set of threads, `sched` ANY schedule; nothing is bounded. Memory is sequentially consistent (what
+the schedule replay executes); the order of Cancel's writes is the list `cancelActs`, which is
+compared with the order regenerated from the source (`sub_order_tie`). -/
+
+section SubSteps
+open XMT.JobSub
+
+/-- the state the repaired code reaches from a fresh session under `sched`, single writes interleaved -/
+abbrev reachS (prog : List KindS) (sched : List Nat) : StS := runS prog {} sched
+
+theorem sub_reach_inv (prog : List KindS) (sched : List Nat) : InvS prog (reachS prog sched) :=
+  inv_runS prog sched {} (invS_init prog)
+
+/-- **Tie of the write ORDER.** The sequence of shared-memory writes inside Cancel's locked region
+(the list the model's step function interprets), of handle's job-finishing block, of accept and of
+frag is the sequence regenerated from c2/job.go and c2/session_no_implant.go by go/parser. Swapping
+`close(j.done)` and `j.Status = …` in the source breaks this obligation even if no sampled schedule
+exposes the difference. -/
+theorem sub_order_tie :
+    Facts.c14sCancelOrder = cancelActs.map CAct.name ∧ Facts.c14sHandleOrder = handleActs ∧
+    Facts.c14sAcceptOrder = acceptActs ∧ Facts.c14sFragOrder = fragActs := by decide
+
+/-- Nothing panics at sub-step granularity either (readers included: they only read), and the session
+lock is only ever held by a Cancel or frag thread that is inside its region — never by a thread that
+has returned or died. -/
+theorem sub_no_panic (prog : List KindS) (sched : List Nat) (t : Nat) :
+    ((reachS prog sched).loc t).out.isPanic = false ∧
+    ((reachS prog sched).lock = some t → ((reachS prog sched).loc t).pc ≠ fin) := by
+  have h := sub_reach_inv prog sched
+  constructor
+  · have := h.noPanic t
+    cases e : ((reachS prog sched).loc t).out <;> simp_all [Out.isPanic]
+  · intro hl
+    rcases h.lockOK t hl with ⟨_, _, h2, h6⟩ | ⟨_, _, _, _, h2⟩
+    · simp only [fin]; omega
+    · simp only [fin]; omega
+
+/-- **In EVERY state between two single writes** — also inside Cancel's locked region — a Job whose
+done channel is closed has the Status of the event that closed it, was closed exactly once, holds the
+Result / Error of that event (none for Cancel), and a `done` field that is nil belongs to a closed
+channel. So there is no instant at which a lock-free reader can find the waiters released and the
+Status not final. -/
+theorem sub_released_with_final_status (prog : List KindS) (sched : List Nat) (r : Nat)
+    (hr : r < (reachS prog sched).nJobs) :
+    let j := (reachS prog sched).jobs r
+    (j.doneNil = true → j.closed = true) ∧
+    (j.closed = true → j.closes = 1 ∧ ∃ e, j.first = some e ∧ j.status = e.status ∧
+      (e = .canceled → j.result = none ∧ j.err = false) ∧ (e = .error → j.err = true) ∧
+      (e = .completed → j.err = false)) := by
+  have h := (sub_reach_inv prog sched).jobs r hr
+  unfold JobOKS at h
+  refine ⟨?_, ?_⟩
+  · intro hn
+    cases hc : ((reachS prog sched).jobs r).closed with
+    | true => rfl
+    | false => have := (h.1 hc).2.2; rw [hn] at this; cases this
+  · intro hc
+    obtain ⟨h1, e, h2, h3, h4, h5, h6⟩ := h.2 hc
+    exact ⟨h1, e, h2, h3, h4, fun x => (h5 x).2, fun x => (h6 x).2⟩
+
+/-- Exactly once, for ever, at sub-step granularity: whatever single actions run after the channel of
+a Job was closed, its Status, Result, Error and first finishing event never change. -/
+theorem sub_finished_is_final (prog : List KindS) (sched more : List Nat) (r : Nat)
+    (hr : r < (reachS prog sched).nJobs) (hc : ((reachS prog sched).jobs r).closed = true) :
+    let a := (reachS prog sched).jobs r
+    let b := (reachS prog (sched ++ more)).jobs r
+    b.closed = true ∧ b.status = a.status ∧ b.result = a.result ∧ b.err = a.err ∧
+    (∀ e, a.first = some e → b.first = some e) := by
+  have hi := sub_reach_inv prog sched
+  have g := good_runS prog more (reachS prog sched) hi
+  have hle := g.2.2 r hr
+  simp only [reachS, runS_append]
+  unfold JobLe at hle
+  obtain ⟨_, _, l3, l4, l5⟩ := hle
+  exact ⟨l3 hc, (l5 hc).1, (l5 hc).2.1, (l5 hc).2.2, l4⟩
+
+/-- **A reader that observed 'done' observes the final Status.** In every reachable state, whatever
+a reader thread (`j.Wait()` returned, or `j.IsDone()` said true) has read from `j.Status` is the
+Status of the event that released the waiters — Completed / Error / Canceled, never Waiting, Accepted
+or Receiving — and it is what the Job holds now (and for ever: `sub_finished_is_final`). -/
+theorem reader_sees_final_status (prog : List KindS) (sched : List Nat) (t k r v : Nat)
+    (hk : isReader prog t k) (hj : jobOf (reachS prog sched) k = some (some r))
+    (hv : ((reachS prog sched).loc t).oSt = some v) :
+    ∃ e, ((reachS prog sched).jobs r).first = some e ∧ v = e.status ∧
+      ((reachS prog sched).jobs r).status = v ∧ ((reachS prog sched).jobs r).closed = true ∧
+      v ≠ stWaiting ∧ v ≠ stAccepted ∧ v ≠ stReceiving := by
+  have h := sub_reach_inv prog sched
+  obtain ⟨hc, hs⟩ := (((h.rd t k hk).2 r hj).2.1) v hv
+  have hr : r < (reachS prog sched).nJobs := h.outJob k r (jobOf_job hj)
+  obtain ⟨_, e, h2, h3, _⟩ := (h.jobs r hr).2 hc
+  refine ⟨e, h2, by rw [hs, h3], hs.symm, hc, ?_⟩
+  rw [hs, h3]
+  cases e <;> decide
+
+/-- … and the Result it reads is the Job's final Result, which — when there is one — is the packet of
+a handle-thread whose packet carried exactly this Job's number (never a result of another Job); a
+cancelled Job has none. -/
+theorem reader_sees_own_result (prog : List KindS) (sched : List Nat) (t k r : Nat) (x : Option Nat)
+    (hk : isReader prog t k) (hj : jobOf (reachS prog sched) k = some (some r))
+    (hv : ((reachS prog sched).loc t).oRes = some x) :
+    x = ((reachS prog sched).jobs r).result ∧ ((reachS prog sched).jobs r).closed = true ∧
+    (((reachS prog sched).jobs r).first = some .canceled → x = none) ∧
+    (∀ g, x = some g → ∃ (t' : Nat) (ef : Bool), prog[t']? = some (KindS.result ((reachS prog sched).jobs r).id ef g)) := by
+  have h := sub_reach_inv prog sched
+  obtain ⟨hc, hs⟩ := (((h.rd t k hk).2 r hj).2.2.1) x hv
+  have hr : r < (reachS prog sched).nJobs := h.outJob k r (jobOf_job hj)
+  obtain ⟨_, e, h2, _, h4, _⟩ := (h.jobs r hr).2 hc
+  refine ⟨hs, hc, ?_, ?_⟩
+  · intro hf
+    rw [h2] at hf
+    cases hf
+    rw [hs]; exact (h4 rfl).1
+  · intro g hg
+    obtain ⟨t', ef, _, hp⟩ := h.res r g hr (by rw [← hs, hg])
+    exact ⟨t', ef, hp⟩
+
+/-- `IsError` (and the Error read of the other readers) is exact: after 'done' was observed, the
+Error a reader sees is non-empty iff the Job was finished by an error-flagged result. -/
+theorem reader_error_iff_error_event (prog : List KindS) (sched : List Nat) (t k r : Nat) (b : Bool)
+    (hk : isReader prog t k) (hj : jobOf (reachS prog sched) k = some (some r))
+    (hv : ((reachS prog sched).loc t).oErr = some b) :
+    (b = true ↔ ((reachS prog sched).jobs r).first = some .error) := by
+  have h := sub_reach_inv prog sched
+  obtain ⟨hc, hs⟩ := (((h.rd t k hk).2 r hj).2.2.2) b hv
+  have hr : r < (reachS prog sched).nJobs := h.outJob k r (jobOf_job hj)
+  obtain ⟨_, e, h2, _, h4, h5, h6⟩ := (h.jobs r hr).2 hc
+  rw [h2, hs]
+  cases e with
+  | completed => simp [(h6 rfl).2]
+  | error => simp [(h5 rfl).2]
+  | canceled => simp [(h4 rfl).2]
+
+/-- A reader that is past its done-test (between `Wait` returning / `IsDone` answering true and its
+last read) reads a Job whose channel IS closed: 'done' is never reported early, whichever writes of
+Cancel or handle the test fell between. -/
+theorem reader_done_means_closed (prog : List KindS) (sched : List Nat) (t k r : Nat)
+    (hk : isReader prog t k) (hj : jobOf (reachS prog sched) k = some (some r))
+    (h2 : 2 ≤ ((reachS prog sched).loc t).pc) (h4 : ((reachS prog sched).loc t).pc ≤ 4) :
+    ((reachS prog sched).jobs r).closed = true :=
+  (((sub_reach_inv prog sched).rd t k hk).2 r hj).1 h2 h4
+
+/-- Wait never blocks on a finished Job at sub-step granularity: both actions of `Wait` (the one read
+of `j.done`, the receive from the channel read) make progress once the channel is closed — the
+receive is never on a nil channel because the field is read once. -/
+theorem sub_no_block_after_finish (s : StS) (t k r : Nat) (hj : jobOf s k = some (some r))
+    (hc : (s.jobs r).closed = true) (hpc : (s.loc t).pc = 0 ∨ (s.loc t).pc = 1) :
+    ((waitRdS s t k).loc t).pc ≠ (s.loc t).pc := by
+  rcases hpc with h | h
+  · simp [waitRdS, hj, h, JobSub.goto, JobSub.setLoc]
+    split <;> simp
+  · simp [waitRdS, hj, h, hc, JobSub.goto, JobSub.setLoc]
+
+/-- non-vacuity: a waiter parked in `Wait`, Cancel executed write by write with the waiter scheduled
+between every two writes: the waiter stays blocked until the close, then reads Canceled / no Result /
+no Error; the lock is free at the end. -/
+example :
+    let prog := [KindS.task 5 [] false, .cancel 0, .waitRd 0]
+    let s := reachS prog [0, 0, 2, 1, 2, 1, 2, 1, 2, 1, 2, 1, 2, 1, 2, 1, 2, 2, 2]
+    jobOf s 0 = some (some 0) ∧ (s.loc 2).oSt = some stCanceled ∧
+    (s.loc 2).oRes = some none ∧ (s.loc 2).oErr = some false ∧ (s.loc 2).pc = fin ∧ s.lock = none ∧
+    (s.jobs 0).first = some .canceled := by decide
+
+example : isReader [KindS.task 5 [] false, .cancel 0, .waitRd 0] 2 0 := Or.inl rfl
+
+/-- non-vacuity of `reader_done_means_closed` / `sub_no_panic` (second part): the Cancel thread is
+parked inside its region after the close (holding the lock), the reader is between its reads. -/
+example :
+    let prog := [KindS.task 5 [] false, .cancel 0, .doneRd 0]
+    let s := reachS prog [0, 0, 1, 1, 1, 1, 1, 1, 2, 2, 2]
+    s.lock = some 1 ∧ (s.loc 1).pc = 6 ∧ (s.loc 2).pc = 3 ∧ (s.loc 2).oSt = some stCanceled ∧
+    (s.jobs 0).closed = true ∧ (s.jobs 0).doneNil = false := by decide
+
+/-- an error-flagged result, reader `IsError` after the close and before `done = nil` -/
+example :
+    let prog := [KindS.task 5 [] false, .result 5 true 7, .isError 0]
+    let s := reachS prog [0, 0, 1, 1, 1, 1, 1, 1, 1, 2, 2, 2, 1]
+    (s.loc 2).out = .bool true ∧ (s.loc 2).oErr = some true ∧ (s.jobs 0).first = some .error ∧
+    (s.jobs 0).result = some 7 := by decide
+
+/-! ### negation: the write order before this round's repair (`cancelActsO`: close, then
+`Status, done = Canceled, nil`) -/
+
+/-- Cancel released the waiters BEFORE it stored the Status: a waiter parked in `Wait` is released by
+the close, reads `j.Status` and gets Waiting — the Status of a Job that is not finished — although
+`Wait` has returned; the Job then ends Canceled. Replayed on the real code by the corpus of
+c14_s3_sub.go (`T:5:0:-,C:0,w:0  0@end,2@W2,1@Cs,2@end,1@end`). -/
+theorem orig_cancel_releases_before_status :
+    let prog := [KindS.task 5 [] false, .cancel 0, .waitRd 0]
+    let s := runSO prog {} [0, 0, 2, 1, 1, 1, 1, 1, 2, 2, 1, 2, 2]
+    (s.loc 2).oSt = some stWaiting ∧ (s.loc 2).pc = fin ∧ (s.jobs 0).status = stCanceled ∧
+    (s.jobs 0).first = some .canceled := by decide
+
+/-- … and IsDone likewise: true, then Status = Accepted (an `accept` had run before). -/
+theorem orig_isDone_true_status_not_final :
+    let prog := [KindS.task 5 [] false, .accept 5, .cancel 0, .doneRd 0]
+    let s := runSO prog {} [0, 0, 1, 1, 2, 2, 2, 2, 2, 3, 3, 3, 2, 3, 3]
+    (s.loc 3).out = .bool true ∧ (s.loc 3).oSt = some stAccepted ∧ (s.jobs 0).status = stCanceled := by decide
+
+/-- the same schedules on the repaired order: the waiter is still blocked when the Status is stored -/
+example :
+    let prog := [KindS.task 5 [] false, .cancel 0, .waitRd 0]
+    let s := reachS prog [0, 0, 2, 1, 1, 1, 1, 1, 2, 2, 1, 2, 2, 1, 2, 2, 2]
+    (s.loc 2).oSt = some stCanceled ∧ (s.loc 2).pc = fin := by decide
+
+/-- Scope of the reader guarantees: they are for readers that test 'done' first. A thread that polls
+`j.Status` alone sees `handle`'s two stores for an error-flagged result one after the other:
+Completed (a final-looking value) while the Job is not finished, then Error. Not repaired (the
+contract of the API is `Wait` / `IsDone` first); recorded here so that nobody reads
+`reader_sees_final_status` as a statement about bare Status polls. -/
+theorem status_poll_sees_completed_before_error :
+    let prog := [KindS.task 5 [] false, .result 5 true 0]
+    let a := reachS prog [0, 0, 1, 1, 1]
+    let b := reachS prog [0, 0, 1, 1, 1, 1, 1, 1, 1, 1]
+    (a.jobs 0).status = stCompleted ∧ (a.jobs 0).closed = false ∧
+    (b.jobs 0).status = stError ∧ (b.jobs 0).first = some .error := by decide
+
+/-! ### beyond sequential consistency: which earlier values an unsynchronised read may return
+
+All stores to `j.Status` / `j.Result` / `j.Error` of one Job are ordered by happens-before (they are
+made under the session lock while the Job is in the table, or by the one thread that took it out), so
+under the Go memory model a read may return the value of any of those stores that is not
+happens-before-overwritten: in terms of the sequentially consistent run `sched`, the value the field
+had after SOME prefix `sched.take m`, where `m` is not before the reader's last synchronisation.
+A receive from the closed channel synchronises with the close (`m ≥` the prefix that closed it);
+a reader that returned because its plain read of `j.done` saw nil has synchronised with nothing
+since `Task` returned the Job. -/
+
+/-- **Synchronised path.** Whatever prefix at or after the close of the channel a read takes its value
+from, it is the final Status / Result / Error: a reader released by `<-d` (or told true by the
+`select` of IsDone) sees the final values under the Go memory model too, not only under sequential
+consistency. -/
+theorem sync_read_sees_final (prog : List KindS) (sched : List Nat) (m0 m r : Nat) (hm : m0 ≤ m)
+    (hr : r < (reachS prog (sched.take m0)).nJobs)
+    (hc : ((reachS prog (sched.take m0)).jobs r).closed = true) :
+    ((reachS prog (sched.take m)).jobs r).status = ((reachS prog sched).jobs r).status ∧
+    ((reachS prog (sched.take m)).jobs r).result = ((reachS prog sched).jobs r).result ∧
+    ((reachS prog (sched.take m)).jobs r).err = ((reachS prog sched).jobs r).err := by
+  have e1 : sched.take m = sched.take m0 ++ (sched.take m).drop m0 := by
+    have := (List.take_append_drop m0 (sched.take m)).symm
+    rwa [List.take_take, Nat.min_eq_left hm] at this
+  have e2 : sched = sched.take m0 ++ sched.drop m0 := (List.take_append_drop m0 sched).symm
+  have a := sub_finished_is_final prog (sched.take m0) ((sched.take m).drop m0) r hr hc
+  have b := sub_finished_is_final prog (sched.take m0) (sched.drop m0) r hr hc
+  rw [← e1] at a
+  rw [← e2] at b
+  exact ⟨a.2.1.trans b.2.1.symm, a.2.2.1.trans b.2.2.1.symm, a.2.2.2.1.trans b.2.2.2.1.symm⟩
+
+/-- **Unsynchronised (nil) path: OPEN, with witness.** `handle` finishes the Job (prefix 10: Status
+Completed, channel closed, `done = nil`); a reader then calls `Wait`, its plain read of `j.done` sees
+nil and `Wait` returns without any synchronisation; the value of `j.Status` after prefix 2 (right
+after `Task` returned the Job: Waiting) is one the Go memory model allows for its next read. Under
+sequential consistency — and on the real hardware the replay runs on — the read returns Completed
+(`reader_sees_final_status`). -/
+theorem nil_path_allows_stale_status :
+    let prog := [KindS.task 5 [] false, .result 5 false 0, .waitRd 0]
+    let sched := [0, 0, 1, 1, 1, 1, 1, 1, 2]
+    ((reachS prog (sched.take 8)).jobs 0).doneNil = true ∧           -- the reader's read of j.done sees nil
+    ((reachS prog sched).loc 2).pc = 2 ∧                              -- Wait has returned, via the nil test
+    ((reachS prog (sched.take 2)).jobs 0).status = stWaiting ∧       -- an allowed (stale) value …   
+    ((reachS prog sched).jobs 0).status = stCompleted := by decide   -- … the final one
+
+end SubSteps
+
+/-! ### review note "`count` outside the invariant": now inside -/
+
+/-- `count` (the model of `len(s.jobs)`, which `handle` / `accept` / `frag` read WITHOUT the lock) is the
+number of keys of the pending table in every reachable state of the coarse model … -/
+theorem count_is_table_size (prog : List Kind) (sched : List Nat) :
+    CountIs (reach prog sched).table (reach prog sched).count :=
+  countIs_runF prog sched {} countIs_empty
+
+/-- … so the unlocked `len(s.jobs) == 0` guard never drops the result of a pending Job: while a Job is
+in the table the count is not 0, and a handle-thread for its number (≥ 2) passes the guard and goes
+on to the locked lookup. -/
+theorem guard_never_drops_pending (prog : List Kind) (sched : List Nat) (t id r : Nat) (ef : Bool) (tag : Nat)
+    (ht : (reach prog sched).table id = some r) :
+    (reach prog sched).count ≠ 0 ∧
+    (2 ≤ id → ((reach prog sched).loc t).pc = 0 →
+      ((resultF (reach prog sched) t id ef tag).loc t).pc = 1 ∧
+      ((resultF (reach prog sched) t id ef tag).loc t).out = ((reach prog sched).loc t).out) := by
+  have hc := count_is_table_size prog sched
+  have hne : (reach prog sched).count ≠ 0 := by
+    intro h0
+    have := (countIs_zero_iff hc).mp h0 id
+    rw [ht] at this; cases this
+  refine ⟨hne, ?_⟩
+  intro h2 hpc
+  have hm : ¬ id < handleMin := by have := facts_ok.2.2.1; omega
+  simp [resultF, hpc, hm, hne, Job.goto, Job.setLoc]
+
+/-- the same for the sub-step model: also between the single writes of Cancel's locked region
+(`delete` changes the table and the count in one write) -/
+theorem sub_count_is_table_size (prog : List JobSub.KindS) (sched : List Nat) :
+    CountIs (JobSub.runS prog {} sched).table (JobSub.runS prog {} sched).count :=
+  JobSub.countIs_runS prog sched {} (JobSub.invS_init prog) countIs_empty
+
+/-- non-vacuity of `guard_never_drops_pending` -/
+example :
+    let s := reach [.task 5 [] false, .result 5 false 0] [0, 0]
+    s.table 5 = some 0 ∧ (s.loc 1).pc = 0 ∧ s.count = 1 := by decide
+
+/-- Review note "caller-supplied Job 1": `Task` registers whatever number the caller put into the
+packet (the code has no guard; only `newJobID` avoids 0 and 1 — `jobid_fresh`). A Job registered
+under 1 is a normal pending Job for `Cancel`, but `handle` drops every result numbered below 2 before
+it looks at the table (`low_numbers_ignored`), so such a Job can only be finished by `Cancel`. The
+property's "never 0 or 1" clause is about numbers handed out, which is what is proved; this witness
+pins down what happens otherwise (c2 itself uses Job 1 only for SvShutdown packets, never via Task). -/
+theorem caller_supplied_one_only_cancel :
+    let prog := [Kind.task 1 [] false, .result 1 false 0, .cancel 0]
+    let a := reach prog [0, 0, 1, 1, 1]
+    let b := reach prog [0, 0, 1, 1, 1, 2, 2]
+    (a.loc 1).out = .ignored ∧ a.table 1 = some 0 ∧ (a.jobs 0).closed = false ∧
+    (b.jobs 0).status = stCanceled ∧ (b.jobs 0).closed = true ∧ b.table 1 = none := by decide
+
 
 -- OPEN: attribution across number reuse. Full statement: "a result meant for the Job created by
 -- Task k is never recorded in a Job created by another Task". False as stated (see
